@@ -83,6 +83,8 @@ def solve_and_judge(case, which, in_situ=True):
         rec.count('models.judged.with_prefix_related_market_codes_and_household_in_both')
     if any(z.get('cross_buy') for z in spec['zones']):
         rec.count('models.judged.with_households_buying_in_another_regions_market')
+    if getattr(b, 'currency_members_overwritten', 0):
+        rec.count('models.judged.with_country_currency_member_overwritten_after_construction')
     if getattr(b, 'lists_mutated', False):
         rec.count('models.judged.with_getter_results_emptied_by_the_caller')
     if getattr(b, 'predeclared_lag', 0):
